@@ -392,6 +392,7 @@ func c20Denied(r *rng, id string) {
 }
 
 func TestC20(t *testing.T) {
+	forCases(6, 203, "x", func(i int, r *rng, id string) { lockStir("C20", r, id) })
 	n := envInt("VERIF_N", 120)
 	if thorough() {
 		n = envInt("VERIF_N", 6000)
